@@ -32,6 +32,7 @@ func runC08(c *core.Ctx) core.Meta {
 
 	// ---------------- R08.5 every work-group is handed out once by the placement algorithms (c09.go) ----------------
 	checkPlacementSiblings(c, NewPkgInfo(c, dispPkg), prov, "R08.5")
+	checkPartitionStarts(c, NewPkgInfo(c, dispPkg))
 
 	// ---------------- R08.2 partial work-group sizes ----------------
 	st2 := c.Rule("R08.2", "the current size of a work-group in each dimension is min(grid - id*wgSize, wgSize) of that same dimension; work-items are spawned up to the current sizes; enumeration advances x fastest, then y, then z", 6)
@@ -626,4 +627,76 @@ func sumOfProducts(expr string) [][]string {
 		return out
 	}
 	return terms(expr)
+}
+
+// checkPartitionStarts (R08.8): the partition algorithm gives compute unit i the work-groups
+// [i*share, (i+1)*share) by positioning a grid builder of its own with Skip. The argument of
+// every Skip in the dispatching package, followed through the package's helpers to the
+// expression the caller wrote, is (loop counter) * numWGPerPartition, bare or clamped with
+// min(.., numWG): a partition that starts behind the grid is empty. Any other start - a clamp
+// to the last work-group, an offset, another stride - makes two partitions hand out the same
+// work-group while another one is never dispatched, with the dispatched count still right.
+func checkPartitionStarts(c *core.Ctx, pi *PkgInfo) {
+	st := c.Rule("R08.8", "in the dispatching package every GridBuilder.Skip positions partition i at work-group i * numWGPerPartition: the argument, followed through package helpers to what the caller wrote, is the product of the loop counter and the algorithm's numWGPerPartition field, bare or as one argument of min whose other argument is the numWG field itself. A clamp to numWG-1 puts every empty partition on the last work-group, which is then dispatched once per empty partition while as many others are never dispatched", 1)
+	isField := func(v ssa.Value, name string) bool {
+		f := core.LoadedField(core.StripConv(v))
+		return f != nil && f.Name() == name
+	}
+	var accept func(v ssa.Value, d int) bool
+	accept = func(v ssa.Value, d int) bool {
+		v = core.StripConv(v)
+		switch x := v.(type) {
+		case *ssa.BinOp:
+			if x.Op == token.MUL {
+				_, px := core.StripConv(x.X).(*ssa.Phi)
+				_, py := core.StripConv(x.Y).(*ssa.Phi)
+				return (px && isField(x.Y, "numWGPerPartition")) || (py && isField(x.X, "numWGPerPartition"))
+			}
+		case *ssa.Call:
+			if core.IsBuiltin(x, "min") && len(x.Call.Args) == 2 && d < 2 {
+				a, b := x.Call.Args[0], x.Call.Args[1]
+				return (accept(a, d+1) && isField(b, "numWG")) || (accept(b, d+1) && isField(a, "numWG"))
+			}
+		}
+		return false
+	}
+	var judge func(fn *ssa.Function, v ssa.Value, at ssa.Instruction, d int)
+	judge = func(fn *ssa.Function, v ssa.Value, at ssa.Instruction, d int) {
+		if p, ok := core.StripConv(v).(*ssa.Parameter); ok && d < 3 {
+			idx := paramIndex(fn, p)
+			n := 0
+			for _, caller := range pi.Funcs {
+				for _, b := range caller.Blocks {
+					for _, in := range b.Instrs {
+						if cc := core.CallOf(in); cc != nil && cc.StaticCallee() == fn && idx >= 0 && idx < len(cc.Args) {
+							n++
+							judge(caller, cc.Args[idx], in, d+1)
+						}
+					}
+				}
+			}
+			if n > 0 {
+				return
+			}
+		}
+		st.Instances++
+		c.MarkAnalysed(fn)
+		ok := accept(v, 0)
+		st.Ob(ok)
+		st.Sample("%s: a partition's grid builder starts at %s: %v", core.FuncName(fn), short(core.NewLocalProv(c).Of(v)), ok)
+		if !ok {
+			c.ReportAt("R08.8", fn, at.Pos(), "partition-start:"+core.FuncName(fn), core.FuncName(fn)+" positions a partition's grid builder at "+short(core.NewLocalProv(c).Of(v))+", which is not (partition index) * numWGPerPartition, bare or clamped to numWG: partitions overlap (an empty partition clamped to numWG-1 stands on the last work-group and dispatches it again) and as many work-groups are never dispatched, while the dispatched count still reaches the announced total")
+		}
+	}
+	for _, fn := range pi.Funcs {
+		for _, b := range fn.Blocks {
+			for _, in := range b.Instrs {
+				cc := core.CallOf(in)
+				if cc == nil || !cc.IsInvoke() || cc.Method.Name() != "Skip" || len(cc.Args) != 1 {
+					continue
+				}
+				judge(fn, cc.Args[0], in, 0)
+			}
+		}
+	}
 }
